@@ -509,16 +509,20 @@ def _check_padding(ctx, cfgs, per):
     ctx.cov["padding"] = {"padded_configs": padded_cfgs, "padded_and_accepted": padded_acc, "pad_without_effect": noop,
                           "pad_classes_exercised": sum(1 for n in did.values() if n), "formats_found_per_kind": {k: sorted(x) for k, x in sorted(found.items())},
                           "carrier_table_differs_sample": mism}
+    problems = []
     dead = sorted("%s/%s" % kp for kp, n in did.items() if n == 0)
     if dead:
-        ctx.inconclusive("C13: pad classes that never padded a string (carrier table of ConfigSpaceGrammar out of step with the renderer): %s" % dead[:10])
+        problems.append("pad classes that never padded a string (carrier table of ConfigSpaceGrammar out of step with the renderer): %s" % dead[:10])
     for k in ALL_KINDS:
         if not listed.get(k):
-            ctx.inconclusive("C13: no padded configuration of kind %s was generated" % k)
-        extra = found.get(k, set()) - listed[k]
+            problems.append("no padded configuration of kind %s was generated" % k)
+        extra = found.get(k, set()) - listed.get(k, set())
         if extra:
-            ctx.inconclusive("C13: the repository validates format(s) %s in configurations of kind %s but the kind's pad field does not list them"
-                             % (sorted(extra), k))
+            problems.append("the repository validates format(s) %s in configurations of kind %s but the kind's pad field does not list them"
+                            % (sorted(extra), k))
+    if problems:
+        # deferred: a panic found on an accepted configuration still is the verdict
+        ctx.defer_inconclusive("C13: " + "; ".join(problems))
 
 
 def _pairwise(cfgs, per):
